@@ -46,6 +46,9 @@ def cases(tier, rng, boost=1):
     brng = core.Rng(7)
     big = [[brng.randrange(3) for _ in range(60000 if tier == 'quick' else 200000)] for _ in range(16)]
     yield _mk(big, 1, src='corpus', cls='zero')
+    for trajs, form, tag in gen.special_sets(core.Rng(11)):
+        yield _mk(trajs, 1, form=form, src='corpus', cls=tag)
+        yield _mk(trajs, 3, form=form, src='corpus', cls=tag)
     total = {'quick': 5, 'thorough': 7, 'search': 6}[tier]
     k = 0
     names = list(ALPHAS3)
@@ -96,13 +99,25 @@ def real(case):
     def run():
         arg = mkarg()
         T, st = mh.msm.estimate_markov_model(arg, case['lag'])
-        T2, st2 = mh.StateTraj(arg).estimate_markov_model(case['lag'])
+        obj = mh.StateTraj(arg)
+        T2, st2 = obj.estimate_markov_model(case['lag'])
         T = np.asarray(T)
         if T.dtype.kind != 'f' or T.ndim != 2:
             raise AssertionError('matrix is not a 2-d float array')
         if not (np.array_equal(T, np.asarray(T2)) and np.array_equal(st, st2)):
             raise AssertionError('function API and StateTraj method differ')
-        return canon_model(T, st)
+        # the estimate is a function of the trajectories only: what the caller does with a returned array afterwards
+        # (here: overwrite both results in place) must not change the next estimate from the same object
+        res = canon_model(T, st)
+        try:
+            np.asarray(T2)[...] = -1.0
+            st2 -= 7
+        except (ValueError, TypeError):
+            pass
+        T3, st3 = obj.estimate_markov_model(case['lag'])
+        if not (np.array_equal(T, np.asarray(T3)) and np.array_equal(st, st3)):
+            raise AssertionError('second estimate from the same StateTraj differs after the first result was overwritten')
+        return res
     out = core.call(run)
     out.pop('msg', None)
     return out
